@@ -375,7 +375,7 @@ impl Check for C07Check {
         }
     }
     fn rule(&self) -> &'static str {
-        "case = seeded address map (1-6 inputs over %IX/B/W/D/L of all 15 elementary types at overlapping/adjacent spans in an 8-byte image, program-level and global bindings, each copied to 1-3 outputs in the first task / second task / background program at bit- and byte-adjacent %Q spans of a pre-filled 40-byte image, sign probes, 0-3 %MW counters) x 1-3 drivers changing their bytes on every read call x history of cycles with explicit boundary input bytes, debugger one-shot I/O writes, forced inputs/outputs, and a final value fault / driver read error / driver write error; later additions: bit-string outputs written through bit access, arrays with non-zero lower bounds bound to direct addresses, an event task whose SINGLE variable is an %IX input, all drivers registered under one name, a fault in the output-encoding phase, and after any faulted cycle a warm/cold restart followed by 1-3 cycles compared with a fresh runtime (images, bytes given to every driver, variables); distinct non-trivial = distinct (map shape hash) with >=2 sizes and >=1 overlapping or adjacent pair"
+        "case = seeded address map (1-6 inputs over %IX/B/W/D/L of all 15 elementary types at overlapping/adjacent spans in an 8-byte image, program-level and global bindings, each copied to 1-3 outputs in the first task / second task / background program at bit- and byte-adjacent %Q spans of a pre-filled 40-byte image, sign probes, 0-3 %MW counters) x 1-3 drivers changing their bytes on every read call x history of cycles with explicit boundary input bytes, debugger one-shot I/O writes, forced inputs/outputs, and a final value fault / driver read error / driver write error; later additions: bit-string outputs written through bit access, arrays with non-zero lower bounds bound to direct addresses, an event task whose SINGLE variable is an %IX input, all drivers registered under one name, a fault in the output-encoding phase, and after any faulted cycle a warm/cold restart followed by 1-3 cycles compared with a fresh runtime (images, bytes given to every driver, variables); round 3: slow-task schedules without a background program (cycles in which no program code runs; which programs ran is read from the task events and the model keeps every output-bound variable), an FB instance nested in an FB instance and a configuration-level FB instance with their own %I/%Q variables; distinct non-trivial = distinct (map shape hash) with >=2 sizes and >=1 overlapping or adjacent pair"
     }
     fn assumptions(&self) -> Vec<&'static str> {
         vec![
